@@ -3,7 +3,8 @@
    procedure (code after) is proved safe; the reader is shown to read back
    exactly what a complete write rendered. *)
 From Coq Require Import List NArith ZArith QArith Qcanon Bool Lia.
-From ACB Require Import Base.QcExtra Base.Fit Model.Rates Model.CrashFs Proofs.RatesProps.
+From ACB Require Import Base.Outcome Base.QcExtra Base.Fit Base.Arith Model.Rates Model.RatesCache
+     Model.CrashFs Spec.RateRule Proofs.RatesProps Proofs.CacheProps.
 Import ListNotations.
 Local Open Scope Z_scope.
 
@@ -583,3 +584,56 @@ Proof.
   destruct inplace_unsafe as (W & C & _).
   split; [exact W | ]. split; [exact C | ]. exact rename_example.
 Qed.
+
+(* ---- a later run over the directory a crash left behind ---- *)
+Section Later.
+  Variable truth : calendar.
+
+  (* a year of rows is the text of what a run with (t, a) wrote *)
+  Definition file_of_run (y : Z) (rows : list row_t) (t a : Z) : Prop :=
+    Forall wf_row rows /\ map row_value rows = written truth y t a.
+
+  Definition cache_of_live (y : Z) (live : option bytes) : list (Z * list drate) :=
+    match live with Some b => [(y, parse_csv b)] | None => [] end.
+
+  Lemma crash_cache_ok y old tmp0 new live tmp t0 a0 tn an :
+    file_of_run y new tn an -> tn <= t0 -> an <= a0 -> tn <= an <= tn + 1 ->
+    match old with
+    | Some rs => exists to ao, file_of_run y rs to ao /\ to <= t0 /\ ao <= a0 /\ to <= ao <= to + 1
+    | None => True
+    end ->
+    post_crash (rename_proc new) (fs_of old tmp0) live tmp ->
+    CacheOk truth t0 a0 (cache_of_live y live).
+  Proof.
+    intros [Wn En] H1 H2 H3 Ho Hc.
+    destruct (rename_atomic old tmp0 new live tmp Hc) as [E | E]; subst live.
+    - destruct old as [rs |]; cbn [option_map cache_of_live]; [ | apply CacheOk_nil ].
+      destruct Ho as (to & ao & [Wo Eo] & G1 & G2 & G3).
+      intros y' rates Ey. cbn [aget] in Ey. destruct (y =? y') eqn:Eq; [ | discriminate ].
+      apply Z.eqb_eq in Eq. subst y'. inversion Ey; subst rates.
+      rewrite parse_render_rows by exact Wo. exists to, ao. repeat split; try lia. exact Eo.
+    - cbn [cache_of_live]. intros y' rates Ey. cbn [aget] in Ey.
+      destruct (y =? y') eqn:Eq; [ | discriminate ].
+      apply Z.eqb_eq in Eq. subst y'. inversion Ey; subst rates.
+      rewrite parse_render_rows by exact Wn. exists tn, an. repeat split; try lia. exact En.
+  Qed.
+
+  Lemma later_runs_unaffected y old tmp0 new live tmp t0 a0 tn an runs params :
+    file_of_run y new tn an -> tn <= t0 -> an <= a0 -> tn <= an <= tn + 1 ->
+    match old with
+    | Some rs => exists to ao, file_of_run y rs to ao /\ to <= t0 /\ ao <= a0 /\ to <= ao <= to + 1
+    | None => True
+    end ->
+    post_crash (rename_proc new) (fs_of old tmp0) live tmp ->
+    runs_ok truth t0 a0 runs params ->
+    exists s' outs,
+      history true {| s_years := []; s_fresh := []; s_cache := cache_of_live y live; s_dl := [] |} runs
+        = Ok (s', outs) /\
+      map fst outs = ref_answers truth runs params /\
+      Forall (fun o => NoDup (snd o)) outs.
+  Proof.
+    intros Hn H1 H2 H3 Ho Hc Hr.
+    apply (history_transparent truth runs params t0 a0); [exact Hr | ].
+    cbn [s_cache]. eapply crash_cache_ok; eauto.
+  Qed.
+End Later.
